@@ -20,9 +20,10 @@ EXTENDS KVTrace, LSMLaws
 VARIABLES
   tabs,     \* num -> set of entries [k, s, d]          (every table announced so far and not removed)
   vfiles,   \* vid -> set of table numbers             (versions of the current session)
+  vlevels,  \* vid -> levels (sequence of sequences of table numbers) of the versions of the current session
   cur,      \* id of the current version (-1: none)
   pinned    \* vids the reference loop holds as referenced and not yet released
-lvars == <<tvars, tabs, vfiles, cur, pinned>>
+lvars == <<tvars, tabs, vfiles, vlevels, cur, pinned>>
 
 Dom2(f) == DOMAIN f
 Ext2(f, x, v) == [y \in Dom2(f) \cup {x} |-> IF y = x THEN v ELSE f[y]]
@@ -58,13 +59,14 @@ TInstall ==
         /\ RecencyOf(L, Lv)
         /\ tabs' = T
         /\ vfiles' = Ext2(vfiles, E.new, nums)
+        /\ vlevels' = Ext2(vlevels, E.new, E.levels)
         /\ cur' = E.new
   /\ UNCHANGED <<kvvars, pinned>>
 
 TVRef ==
   /\ Is("vref")
   /\ pinned' = IF E.kind = "ref" THEN pinned \cup {E.vid} ELSE pinned \ {E.vid}
-  /\ UNCHANGED <<kvvars, tabs, vfiles, cur>>
+  /\ UNCHANGED <<kvvars, tabs, vfiles, vlevels, cur>>
 
 Needed == (IF cur \in Dom2(vfiles) THEN vfiles[cur] ELSE {})
           \cup UNION {vfiles[v] : v \in pinned \cap Dom2(vfiles)}
@@ -74,11 +76,11 @@ TStRemove ==
   /\ Is("stremove")
   /\ E.num \notin Needed
   /\ tabs' = [n \in Dom2(tabs) \ {E.num} |-> tabs[n]]
-  /\ UNCHANGED <<kvvars, vfiles, cur, pinned>>
+  /\ UNCHANGED <<kvvars, vfiles, vlevels, cur, pinned>>
 
 TSessionEnd ==
   /\ Is("session-end")
-  /\ vfiles' = <<>> /\ cur' = -1 /\ pinned' = {}
+  /\ vfiles' = <<>> /\ vlevels' = <<>> /\ cur' = -1 /\ pinned' = {}
   /\ UNCHANGED <<kvvars, tabs>>
 
 \* C07: once readers are released and background work has settled, storage holds nothing
@@ -88,22 +90,45 @@ TSettled ==
   /\ SeqSet(E.tables) = SeqSet(E.live)
   /\ SeqSet(E.journals) \subseteq {E.jcur, E.jfrozen}
   /\ SeqSet(E.manifests) = {E.mcur}
-  /\ UNCHANGED <<kvvars, tabs, vfiles, cur, pinned>>
+  /\ UNCHANGED <<kvvars, tabs, vfiles, vlevels, cur, pinned>>
 
 TReclaimed ==
   /\ Is("reclaimed")
   /\ E.bytes <= E.bound
-  /\ UNCHANGED <<kvvars, tabs, vfiles, cur, pinned>>
+  /\ UNCHANGED <<kvvars, tabs, vfiles, vlevels, cur, pinned>>
 
-LReset == Reset /\ tabs' = <<>> /\ vfiles' = <<>> /\ cur' = -1 /\ pinned' = {}
+\* A table compaction about to run (session_compaction.go: pickCompaction / getCompactionRange / expand), picked on
+\* version E.vid: its inputs must be closed - at level 0 every table overlapping the inputs' key range is an input
+\* (otherwise an older entry would stay above a newer one), and every table of the next level overlapping that
+\* range is an input (otherwise the output would overlap it).  These are the preconditions of the C06 laws.
+Overlaps(t, lo, hi) == ~(KMax(t) < lo \/ KMin(t) > hi)
+TCompaction ==
+  /\ Is("compaction")
+  /\ IF E.vid \in Dom2(vlevels) /\ E.level + 2 <= Len(vlevels[E.vid]) /\ Len(E.in0) > 0
+        /\ (SeqSet(E.in0) \cup SeqSet(E.in1)) \subseteq Dom2(tabs)
+     THEN LET L0 == SeqSet(vlevels[E.vid][E.level + 1])
+              L1 == SeqSet(vlevels[E.vid][E.level + 2])
+              I0 == SeqSet(E.in0)
+              I1 == SeqSet(E.in1)
+              lo == MinS({KMin(tabs[n]) : n \in I0})
+              hi == MaxS({KMax(tabs[n]) : n \in I0})
+          IN /\ I0 \subseteq L0 /\ I1 \subseteq L1
+             /\ E.level = 0 => \A n \in (L0 \ I0) \cap Dom2(tabs) : ~Overlaps(tabs[n], lo, hi)
+             /\ E.trivial = 0 => \A n \in (L1 \ I1) \cap Dom2(tabs) : ~Overlaps(tabs[n], lo, hi)
+             /\ E.trivial = 1 => \A n \in L1 \cap Dom2(tabs) : ~Overlaps(tabs[n], lo, hi)
+     ELSE TRUE
+  /\ UNCHANGED <<kvvars, tabs, vfiles, vlevels, cur, pinned>>
 
-LSMInit == TraceInit /\ tabs = <<>> /\ vfiles = <<>> /\ cur = -1 /\ pinned = {}
+LReset == Reset /\ tabs' = <<>> /\ vfiles' = <<>> /\ vlevels' = <<>> /\ cur' = -1 /\ pinned' = {}
+
+LSMInit == TraceInit /\ tabs = <<>> /\ vfiles = <<>> /\ vlevels = <<>> /\ cur = -1 /\ pinned = {}
 
 LSMNext ==
   /\ Advance
   /\ \/ LReset
      \/ TInstall \/ TVRef \/ TStRemove \/ TSessionEnd \/ TSettled \/ TReclaimed
-     \/ (~Is("reset") /\ KVStep /\ UNCHANGED <<tabs, vfiles, cur, pinned>>)
+     \/ TCompaction
+     \/ (~Is("reset") /\ KVStep /\ UNCHANGED <<tabs, vfiles, vlevels, cur, pinned>>)
   /\ Mark
 
 LSMSpec == LSMInit /\ [][LSMNext]_lvars
